@@ -30,6 +30,23 @@ def numcast_of(S, tid):
     return None
 
 
+def bool_cast_fact(S, tid):
+    """boolean term over discr(numcast(atom)): (atom name, True if the term being true means the cast SUCCEEDED)"""
+    t = S.terms[tid]
+    if t[0] != 'a':
+        return None
+    if t[1] == 'not' and len(t[2]) == 1:
+        f = bool_cast_fact(S, t[2][0])
+        return (f[0], not f[1]) if f else None
+    if t[1] in ('eq', 'ne') and len(t[2]) == 2:
+        for x, c in ((t[2][0], t[2][1]), (t[2][1], t[2][0])):
+            nm = numcast_of(S, x)
+            if nm is not None and S.terms[c][0] == 'i' and S.terms[c][1] in ('0', '1'):
+                is_some = S.terms[c][1] == '1'
+                return (nm, is_some if t[1] == 'eq' else not is_some)
+    return None
+
+
 def payload_of(S, tid):
     """term proj(variant(numcast(atom), 1), 0) -> atom name"""
     t = S.terms[tid]
@@ -49,6 +66,19 @@ def cast_paths(S, o, status=None):
     k = o['k']
     if k in ('ret', 'panic', 'top', 'cut'):
         yield status, o
+        return
+    if k == 'ite':
+        # `x.is_none()` / `x.is_some()`: a boolean test of the same discriminant
+        f = bool_cast_fact(S, o['c'])
+        if f is None:
+            raise ValueError('branch on %s' % S.show(o['c'])[:80])
+        nm, some_if_true = f
+        for sub, val in ((o['t'], some_if_true), (o['e'], not some_if_true)):
+            st2 = dict(status)
+            if nm in st2 and st2[nm] != val:
+                continue
+            st2[nm] = val
+            yield from cast_paths(S, sub, st2)
         return
     if k != 'switch':
         raise ValueError('branch on %s' % S.show(o['c'])[:80])
